@@ -42,6 +42,8 @@ fn run(a: &[String]) -> String {
         "inspector_balance" => scenarios::inspector_balance(),
         "evm_leak" => scenarios::evm_leak(&a[1]),
         "transfer_sum" => scenarios::transfer_sum(&a[1]),
+        "inspector_transparency" => scenarios::inspector_transparency(),
+        "selfdestruct_notify" => scenarios::selfdestruct_notify(),
         "bytecode_accessors" => scenarios::bytecode_accessors(),
         "block_state_kernel" => scenarios::block_state_kernel(),
         "create_guard" => scenarios::create_guard(),
